@@ -220,8 +220,75 @@ let handle_paths words =
   | ["strip_prefix"; a; b] -> (match PathModel.strip_prefix (bytes_of_hex a) (bytes_of_hex b) with None -> "none" | Some x -> hex_of_bytes x)
   | _ -> "badcase"
 
+(* ---- delete <matched ids (r = root) or ~> <tree: F | D[id:tree,...]> -> "<failed 0/1> <removed ids in order>" ---- *)
+let parse_dtree (s : string) : Delete.node =
+  let pos = ref 0 in
+  let peek () = s.[!pos] in
+  let adv () = incr pos in
+  let rec node () =
+    match peek () with
+    | 'F' -> adv (); Delete.File
+    | 'D' -> adv (); adv ();
+      let ch = ref [] in
+      while peek () <> ']' do
+        if peek () = ',' then adv ();
+        let st = !pos in
+        while peek () <> ':' do adv () done;
+        let id = int_of_string (String.sub s st (!pos - st)) in
+        adv ();
+        let n = node () in
+        ch := (nat_of_int id, n) :: !ch
+      done;
+      adv ();
+      Delete.Dir (Stdlib.List.rev !ch)
+    | _ -> failwith "dtree" in
+  node ()
+let handle_delete words =
+  match words with
+  | [matched; tree] ->
+    let ms = list_of matched in
+    let root_m = Stdlib.List.mem "r" ms in
+    let ids = Stdlib.List.filter_map (fun x -> if x = "r" then None else Some (int_of_string x)) ms in
+    let m rp = match rp with [] -> root_m | id :: _ -> Stdlib.List.mem (int_of_nat id) ids in
+    let r = Delete.delete_run m [] (parse_dtree tree) { Delete.removed = []; failed = false } in
+    (if r.Delete.failed then "1" else "0") ^ " " ^
+    (if r.Delete.removed = [] then "~" else String.concat "," (Stdlib.List.map (fun rp -> match rp with [] -> "r" | id :: _ -> string_of_int (int_of_nat id)) r.Delete.removed))
+  | _ -> "badcase"
+
+(* ---- execm execdir budget failing(invocation numbers, ~) entries(id:cost:single:parent|-:reached,...)
+        -> "<failed> <pending 0/1> <cwd|-:id.id...> ..." ---- *)
+let handle_execm words =
+  match words with
+  | [execdir; budget; failing; entries] ->
+    let fails = Stdlib.List.map int_of_string (list_of failing) in
+    let ok i = not (Stdlib.List.mem (int_of_nat i) fails) in
+    let es = Stdlib.List.map (fun e -> match split_on ':' e with
+        | [id; cost; single; parent; reached] ->
+          { ExecMulti.eid = nat_of_int (int_of_string id); ecost = big_n cost; esingle = (single = "1");
+            eparent = (if parent = "-" then None else Some (nat_of_int (int_of_string parent))); reached = (reached = "1") }
+        | _ -> failwith "entry") (list_of entries) in
+    let s = ExecMulti.run (execdir = "1") (big_n budget) ok es in
+    let show (cwd, b) = (match cwd with None -> "-" | Some d -> string_of_int (int_of_nat d)) ^ ":" ^
+                        String.concat "." (Stdlib.List.map (fun e -> string_of_int (int_of_nat e.ExecMulti.eid)) b) in
+    String.concat " " ((if s.ExecMulti.failed then "1" else "0") :: (match s.ExecMulti.cmd with None -> "0" | Some _ -> "1") ::
+                       Stdlib.List.map show s.ExecMulti.runs)
+  | _ -> "badcase"
+let show_n n = (* decimal of a binary natural, via OCaml ints where it fits *) string_of_int (int_of_n n)
+let handle_limits words =
+  match words with
+  | ["argmax_budget"; argmax; env; prog; fixed] ->
+    let envl = Stdlib.List.map (fun kv -> match split_on ':' kv with [k; v] -> (big_n k, big_n v) | _ -> failwith "env") (list_of env) in
+    show_n (ExecLimits.argmax_budget (big_n argmax) envl (big_n prog) (Stdlib.List.map big_n (list_of fixed)))
+  | ["kernel"; rl; argc; arglen; envl; fname] ->
+    (* argc arguments of length arglen each *)
+    let rec rep n x = if n = 0 then [] else x :: rep (n - 1) x in
+    let c = { ExecLimits.argv = rep (int_of_string argc) (big_n arglen); envp = Stdlib.List.map big_n (list_of envl); fname = big_n fname } in
+    if ExecLimits.kernel_accepts_b (big_n rl) c then "1" else "0"
+  | ["kernel_limit"; rl] -> show_n (ExecLimits.kernel_limit (big_n rl))
+  | _ -> "badcase"
+
 let handlers : (string * (string list -> string)) list ref =
-  ref [ ("xread", handle_xread); ("xargs", handle_xargs); ("xrepl", handle_xrepl); ("xnorm", handle_xnorm); ("walk", handle_walk); ("expr", handle_expr); ("num", handle_num); ("glob", handle_glob); ("paths", handle_paths) ]
+  ref [ ("xread", handle_xread); ("xargs", handle_xargs); ("xrepl", handle_xrepl); ("xnorm", handle_xnorm); ("walk", handle_walk); ("expr", handle_expr); ("num", handle_num); ("glob", handle_glob); ("paths", handle_paths); ("delete", handle_delete); ("execm", handle_execm); ("limits", handle_limits) ]
 
 let () =
   try while true do
